@@ -341,6 +341,17 @@ func (f *Fam) genTx1(r *rand.Rand, s *Snapshot) string {
 			cands = append(cands, i)
 		}
 	}
+	if want >= 12 && want < 17 { // a third of the begin-unstake requests come from jailed validators, if there are any
+		var jl []int
+		for _, i := range cands {
+			if s.Vals[hx(Keys[i].Addr)].Jailed {
+				jl = append(jl, i)
+			}
+		}
+		if len(jl) > 0 {
+			cands = jl
+		}
+	}
 	forced := ""
 	if len(cands) > 0 {
 		ki = cands[r.Intn(len(cands))]
@@ -439,7 +450,7 @@ func (f *Fam) genTx1(r *rand.Rand, s *Snapshot) string {
 		fields = fmt.Sprintf("from=%s to=%s amt=%s", addr, to, amt)
 	case x < 85:
 		kind = "changeparam"
-		keys := []string{"pos/MaxValidators", "pos/SignedBlocksWindow", "pos/StakeMinimum", "pos/UnstakingTime", "auth/MaxMemoCharacters", "gov/daoOwner", "pos/Nope", "nosuch/Key", "pos/MinSignedPerWindow", "gov/acl", "gov/acl",
+		keys := []string{"pos/MaxValidators", "pos/SignedBlocksWindow", "pos/StakeMinimum", "pos/UnstakingTime", "auth/MaxMemoCharacters", "gov/daoOwner", "pos/Nope", "nosuch/Key", "pos/MinSignedPerWindow", "gov/acl", "gov/acl", "gov/acl",
 			"pos/DowntimeJailDuration", "pos/MaxEvidenceAge", "pos/SlashFractionDoubleSign", "pos/SlashFractionDowntime", "gov/upgrade", "auth/TxSigLimit", "auth/FeeMultipliers"}
 		key := keys[r.Intn(len(keys))]
 		// the sender is mostly the address the access-control list names for this key (ownership is handed over per key)
@@ -490,7 +501,7 @@ func (f *Fam) genTx1(r *rand.Rand, s *Snapshot) string {
 			k := names[r.Intn(len(names))]
 			newOwner := Keys[r.Intn(NKeys)].Addr
 			na := govTypes.ACL{}
-			drop := r.Intn(5) == 0 // a new list that simply omits the key: nobody owns it any more
+			drop := r.Intn(3) == 0 // a new list that simply omits the key: nobody owns it any more
 			for _, pair := range curACL {
 				if drop && pair.Key == k {
 					continue
@@ -712,7 +723,7 @@ func (f *Fam) Gen(r *rand.Rand, i int) string {
 					jailedUnstaking = true
 				}
 			}
-			if importable && jailedUnstaking && r.Intn(2) == 0 {
+			if jailedUnstaking && r.Intn(2) == 0 { // the pos part alone is importable whatever the other validators look like
 				f.gen.phase = 5
 			}
 			often := 3
